@@ -82,7 +82,24 @@ class Execution(object):
         return out
 
 
-def explore(h, max_states=200000, seed=0, max_wall=None, check_key_soundness=True, progress=None):
+def key_trace(h, choices, repo):
+    """Execute one schedule (choice indices) and return the sequence of state keys."""
+    ex = Execution(h)
+    keys = []
+    try:
+        for c in choices:
+            keys.append(statekey.state_key(ex.sched, repo, None)[0])
+            acts = ex.sched.enabled()
+            if c >= len(acts):
+                raise vmp.VmpError("replay divergence: choice %d of %d" % (c, len(acts)))
+            ex.sched.execute(acts[c])
+        keys.append(statekey.state_key(ex.sched, repo, None)[0])
+    finally:
+        ex.close()
+    return keys
+
+
+def explore(h, max_states=200000, seed=0, max_wall=None, check_key_soundness=True, progress=None, determinism_checks=2):
     repo = repo_dir()
     res = ExploreResult(h.name)
     t0 = time.time()
@@ -170,6 +187,14 @@ def explore(h, max_states=200000, seed=0, max_wall=None, check_key_soundness=Tru
                     raise vmp.VmpError("horizon exceeded")
         finally:
             ex.close()
+        if determinism_checks > 0 and len(choices) >= 3:
+            # replay determinism: the same schedule must produce the same state keys (twice)
+            determinism_checks -= 1
+            k1 = key_trace(h, choices, repo)
+            k2 = key_trace(h, choices, repo)
+            res.counters["determinism_replays"] = res.counters.get("determinism_replays", 0) + 2
+            if k1 != k2:
+                raise vmp.VmpError("NONDETERMINISM: the same schedule produced different state keys (%s)" % h.name)
         if progress and res.executions % 2000 == 0:
             progress("%s: %d states, %d executions, %.0fs" % (h.name, len(seen), res.executions, time.time() - t0))
 
@@ -226,3 +251,48 @@ def run_labels(h, labels, tolerate_end=True):
         ex.close()
         raise
     return ex
+
+
+def explore_unmerged(h, max_timeouts=2, max_execs=50000):
+    """Stateless depth-first exploration WITHOUT state merging (self-test of the state keys):
+    every schedule with at most `max_timeouts` timeout actions is executed to the end.  Returns
+    (set of terminal observations, set of violation signatures, executions, complete?)."""
+    outcomes, viols = set(), set()
+    stack = [()]
+    n = 0
+    while stack:
+        if n >= max_execs:
+            return outcomes, viols, n, False
+        prefix = stack.pop()
+        ex = Execution(h)
+        n += 1
+        try:
+            sched = ex.sched
+            for c in prefix:
+                acts = sched.enabled()
+                sched.execute(acts[c])
+            choices = list(prefix)
+            while True:
+                v = ex.step_violations()
+                if v:
+                    viols.update(sig for sig, _ in v)
+                    break
+                if ex.main_finished():
+                    vs, obs = h.at_terminal(sched, ex.monitor)
+                    outcomes.add(obs)
+                    viols.update(sig for sig, _ in vs)
+                    break
+                acts = sched.enabled()
+                ntm = sum(1 for l in sched.trace if "timeout" in l)
+                allowed = [i for i, a in enumerate(acts) if not (a.kind == "timeout" and ntm >= max_timeouts)]
+                if not allowed:
+                    if not acts:
+                        viols.add("deadlock")
+                    break
+                for i in allowed[1:]:
+                    stack.append(tuple(choices) + (i,))
+                sched.execute(acts[allowed[0]])
+                choices.append(allowed[0])
+        finally:
+            ex.close()
+    return outcomes, viols, n, True
